@@ -176,10 +176,13 @@ func (z *ZodLiteral[T, R]) Describe(description string) *ZodLiteral[T, R] {
 	return clone
 }
 
-// Meta stores metadata for this literal schema.
+// Meta returns a new schema with the given metadata stored in the global
+// registry; the receiver and its registry entry are unchanged.
 func (z *ZodLiteral[T, R]) Meta(meta core.GlobalMeta) *ZodLiteral[T, R] {
-	core.GlobalRegistry.Add(z, meta)
-	return z
+	newInternals := z.internals.Clone()
+	clone := z.withInternals(newInternals)
+	core.GlobalRegistry.Add(clone, meta)
+	return clone
 }
 
 // Refine adds a typed custom validation function.
